@@ -368,4 +368,4 @@ def replay(art):
         o, i = (space.from_json(x) for x in c['shapes'])
         same = c['op'].startswith('merge')
         eval_pair(o, i, c['patterns'][0], c['patterns'][1], c['shared'], st, same)
-    return [v['detail'] for v in st.viol] or None
+    return runner.fresh_details('C11', st) or None
